@@ -106,11 +106,16 @@ Definition transport_packets (t : transport) (payload : bytes) : list bytes :=
       let pieces := cut cuts pkt in
       map (fun ip => split_header ++ le32 id ++ [fst ip * 16 + lenN pieces] ++ snd ip) (number_from 0 pieces)
   | SplitBz cuts id nosize comp =>
-      let pieces := cut cuts comp in
-      map (fun ip => split_header ++ le32 (id + 2147483648) ++ [lenN pieces; fst ip]
-                     ++ (if nosize then [] else le16 1248)
-                     ++ (if fst ip =? 0 then le32 (lenN pkt) ++ le32 (crc32 pkt) else []) ++ snd ip)
-          (number_from 0 pieces)
+      (* the bzip2 stream of the whole packet, cut in pieces; id has its top bit
+         set; packet 0 also carries the decompressed size and the CRC32 *)
+      let total := lenN (cut cuts comp) in
+      let head (i : N) := split_header ++ le32 (id + 2147483648) ++ [total; i] ++ (if nosize then [] else le16 1248) in
+      match cut cuts comp with
+      | [] => []
+      | p0 :: rest =>
+          (head 0 ++ (le32 (lenN pkt) ++ le32 (crc32 pkt)) ++ p0)
+          :: map (fun ip => head (fst ip) ++ [] ++ snd ip) (number_from 1 rest)
+      end
   end.
 Definition reply_packets (o : reply_opts) (payload : bytes) : list bytes :=
   map challenge_packet (ro_challenges o) ++ transport_packets (ro_transport o) payload.
@@ -184,9 +189,11 @@ Definition wf_info (e : engine) (i : info_state) : bool :=
       && no_nul (i_version s) && optb wf_edf (i_edf s)
   | GoldInfo _, _ => false
   end.
-Definition wf_player (e : engine) (p : player_state) : bool :=
+Definition wf_basic_player (p : player_state) : bool :=
   u8b (ps_index p) && no_nul (ps_name p) && ((- 2147483648 <=? ps_score p)%Z && (ps_score p <? 2147483648)%Z)
-  && u32b (ps_duration p)
+  && u32b (ps_duration p).
+Definition wf_player (e : engine) (p : player_state) : bool :=
+  wf_basic_player p
   && Bool.eqb (engine_is e 2400) (match ps_ship p with Some _ => true | None => false end)
   && optb (fun dm => u32b (fst dm) && u32b (snd dm)) (ps_ship p).
 Definition wf_state (e : engine) (st : vstate) : bool :=
